@@ -697,8 +697,22 @@ def r4_5_state_writers(rep, facts):
     disp = sites.get('stream')
     st_discr = facts.enum_discr("parser::stream::State") if "parser::stream::State" in facts.adts else {}
     n = 0
+    # helpers introduced by a later edit that only the dispatch site calls (directly or through one another) are part of it: the
+    # dispatch tables (R4.1) are extracted with them inlined, so their state writes are judged there
+    part_of_dispatch = set()
+    if disp is not None:
+        callers = {}
+        for (cb, cbi, t_, nm_) in F.calls_to(facts, lambda n_: n_.startswith("parser::stream::")):
+            callers.setdefault(nm_, set()).add(cb.npath.split("::{closure")[0])
+        changed = True
+        while changed:
+            changed = False
+            for nm_, cs_ in callers.items():
+                if nm_ not in part_of_dispatch and facts.is_new_helper(nm_) and cs_ and all(c == disp.npath or c in part_of_dispatch for c in cs_):
+                    part_of_dispatch.add(nm_)
+                    changed = True
     for b in facts.bodies:
-        if b.promoted or b is disp or not b.npath.startswith("parser::stream::"):
+        if b.promoted or b is disp or not b.npath.startswith("parser::stream::") or b.npath in part_of_dispatch:
             continue
         has = any(st["k"] == "assign" and any(el.get("n") == "state" and F.norm(el.get("of", "")) == "parser::stream::Parser" for el in st["place"].get("p", []))
                   for blk in b.blocks for st in blk["st"])
